@@ -24,6 +24,8 @@ pub enum Cur<'a> {
     Closure(&'a ExprClosure),
     Expr(&'a Expr),
     Exprs(&'a [Expr]),
+    /// consecutive statements of one block
+    Stmts(&'a [Stmt]),
 }
 
 #[derive(Default)]
@@ -38,6 +40,8 @@ pub struct Coll<'ast> {
     pub fields: Vec<&'ast FieldValue>,
     pub ifs: Vec<&'ast ExprIf>,
     pub calls: Vec<&'ast ExprCall>,
+    pub mcalls: Vec<&'ast ExprMethodCall>,
+    pub matches: Vec<&'ast ExprMatch>,
     pub depth_fn: usize,
 }
 
@@ -49,6 +53,10 @@ impl<'ast> Visit<'ast> for Coll<'ast> {
     fn visit_arm(&mut self, a: &'ast Arm) {
         self.arms.push(a);
         visit::visit_arm(self, a);
+    }
+    fn visit_expr_match(&mut self, m: &'ast ExprMatch) {
+        self.matches.push(m);
+        visit::visit_expr_match(self, m);
     }
     fn visit_expr_closure(&mut self, c: &'ast ExprClosure) {
         self.closures.push(c);
@@ -77,6 +85,10 @@ impl<'ast> Visit<'ast> for Coll<'ast> {
     fn visit_expr_call(&mut self, c: &'ast ExprCall) {
         self.calls.push(c);
         visit::visit_expr_call(self, c);
+    }
+    fn visit_expr_method_call(&mut self, c: &'ast ExprMethodCall) {
+        self.mcalls.push(c);
+        visit::visit_expr_method_call(self, c);
     }
     fn visit_field_value(&mut self, f: &'ast FieldValue) {
         self.fields.push(f);
@@ -109,6 +121,11 @@ pub fn collect<'a>(cur: &Cur<'a>) -> Coll<'a> {
         Cur::Exprs(es) => {
             for e in es.iter() {
                 c.visit_expr(e)
+            }
+        }
+        Cur::Stmts(ss) => {
+            for st in ss.iter() {
+                c.visit_stmt(st)
             }
         }
     }
@@ -260,24 +277,57 @@ pub fn resolve<'a>(sf: &'a SourceFile, path: &str) -> std::result::Result<Cur<'a
                 .ok_or_else(|| lost("no such match arm"))?;
             let g = a.guard.as_ref().ok_or_else(|| lost("arm has no guard"))?;
             cur = Cur::Expr(&g.1);
+        } else if let Some(pn) = seg.strip_prefix("closure/") {
+            // the k-th closure with exactly N parameters
+            let (nstr, k) = split_ord(pn);
+            let n: usize = nstr.trim().parse().map_err(|_| lost("bad parameter count"))?;
+            let coll = collect(&cur);
+            let c = coll
+                .closures
+                .iter()
+                .filter(|c| c.inputs.len() == n)
+                .nth(k - 1)
+                .ok_or_else(|| lost("no closure with that many parameters"))?;
+            cur = Cur::Closure(c);
+        } else if let Some(pn) = seg.strip_prefix("closure@") {
+            // the k-th closure that has a parameter with the given name
+            let (pname, k) = split_ord(pn);
+            let coll = collect(&cur);
+            let c = coll
+                .closures
+                .iter()
+                .filter(|c| c.inputs.iter().any(|p| match p {
+                    Pat::Ident(pi) => pi.ident == pname,
+                    Pat::Type(pt) => matches!(&*pt.pat, Pat::Ident(pi) if pi.ident == pname),
+                    _ => false,
+                }))
+                .nth(k - 1)
+                .ok_or_else(|| lost("no closure with such a parameter"))?;
+            cur = Cur::Closure(c);
         } else if seg.starts_with("closure") {
             let (_, k) = split_ord(seg);
             let coll = collect(&cur);
             let c = coll.closures.get(k - 1).ok_or_else(|| lost("no such closure"))?;
             cur = Cur::Closure(c);
         } else if let Some(n) = seg.strip_prefix("macro ") {
-            let (name, k) = split_ord(n);
+            let (name_raw, k) = split_ord(n);
+            // `macro NAME@FIRST` selects the invocation whose first token is FIRST
+            let (name, first) = match name_raw.split_once('@') {
+                Some((a, b)) => (a.trim().to_string(), Some(b.trim().to_string())),
+                None => (name_raw.clone(), None),
+            };
             let coll = collect(&cur);
             let m = coll
                 .macros
                 .iter()
                 .filter(|m| m.path.segments.last().map(|s| s.ident == name).unwrap_or(false))
+                .filter(|m| match &first {
+                    Some(f) => m.tokens.clone().into_iter().next().map(|t| t.to_string() == *f).unwrap_or(false),
+                    None => true,
+                })
                 .nth(k - 1)
                 .ok_or_else(|| lost("no such macro invocation"))?;
-            let parsed = m
-                .parse_body_with(punctuated::Punctuated::<Expr, Token![,]>::parse_terminated)
-                .map_err(|e| ("unsupported", format!("macro body not an expression list: {e}")))?;
-            let v: Vec<Expr> = parsed.into_iter().collect();
+            let v: Vec<Expr> = crate::macro_args(m);
             let leaked: &'static [Expr] = Box::leak(v.into_boxed_slice());
             cur = Cur::Exprs(leaked);
         } else if let Some(n) = seg.strip_prefix("let ") {
@@ -295,6 +345,116 @@ pub fn resolve<'a>(sf: &'a SourceFile, path: &str) -> std::result::Result<Cur<'a
                 .ok_or_else(|| lost("no such let"))?;
             let init = l.init.as_ref().ok_or_else(|| lost("let without initialiser"))?;
             cur = Cur::Expr(&init.expr);
+        } else if let Some(n) = seg.strip_prefix("stmts ") {
+            // `stmts A .. B`: the consecutive statements of one block from the first statement whose
+            // normalized text starts with A through the first following one that starts with B
+            let (a, b) = n.split_once(" .. ").ok_or_else(|| lost("stmts needs `A .. B`"))?;
+            let (wa, wb) = (norm(a), norm(b));
+            struct F<'x> {
+                sf: &'x SourceFile,
+                wa: String,
+                wb: String,
+                hit: Option<&'x [Stmt]>,
+            }
+            impl<'x> Visit<'x> for F<'x> {
+                fn visit_block(&mut self, blk: &'x Block) {
+                    if self.hit.is_none() {
+                        let texts: Vec<String> = blk.stmts.iter().map(|s| norm(self.sf.slice(self.sf.range(s.span())))).collect();
+                        if let Some(i) = texts.iter().position(|t| t.starts_with(&self.wa)) {
+                            if let Some(j) = texts.iter().skip(i).position(|t| t.starts_with(&self.wb)) {
+                                self.hit = Some(&blk.stmts[i..=i + j]);
+                                return;
+                            }
+                        }
+                    }
+                    visit::visit_block(self, blk);
+                }
+            }
+            let mut f = F { sf, wa, wb, hit: None };
+            match &cur {
+                Cur::Arm(a) => f.visit_expr(&a.body),
+                Cur::ItemFn(x) => f.visit_block(&x.block),
+                Cur::ImplFn(x) => f.visit_block(&x.block),
+                Cur::Closure(c) => f.visit_expr(&c.body),
+                Cur::Expr(e) => f.visit_expr(e),
+                _ => {}
+            }
+            cur = Cur::Stmts(f.hit.ok_or_else(|| lost("no such statement range"))?);
+        } else if let Some(n) = seg.strip_prefix("loop#") {
+            let k: usize = n.trim().parse().map_err(|_| lost("bad loop ordinal"))?;
+            let coll = collect(&cur);
+            let l = coll.loops.get(k - 1).ok_or_else(|| lost("no such loop"))?;
+            cur = Cur::Expr(l);
+        } else if let Some(n) = seg.strip_prefix("macrodef ") {
+            let items: &[Item] = match &cur {
+                Cur::File(f) => &f.items,
+                _ => return Err(lost("macrodef outside file")),
+            };
+            let mut found = None;
+            for it in items {
+                if let Item::Macro(m) = it {
+                    if m.ident.as_ref().map(|i| i == n.trim()).unwrap_or(false) {
+                        found = Some(it);
+                    }
+                }
+            }
+            cur = Cur::Item(found.ok_or_else(|| lost("no such macro_rules definition"))?);
+        } else if let Some(n) = seg.strip_prefix("blocktail-after-let ") {
+            // the tail expression of the block that declares `let NAME`
+            let name = n.trim().to_string();
+            struct F<'x> {
+                name: String,
+                hit: Option<&'x Expr>,
+            }
+            impl<'x> Visit<'x> for F<'x> {
+                fn visit_block(&mut self, b: &'x Block) {
+                    if self.hit.is_none() {
+                        let declares = b.stmts.iter().any(|s| match s {
+                            Stmt::Local(l) => match &l.pat {
+                                Pat::Ident(pi) => pi.ident == self.name,
+                                Pat::Type(pt) => matches!(&*pt.pat, Pat::Ident(pi) if pi.ident == self.name),
+                                _ => false,
+                            },
+                            _ => false,
+                        });
+                        if declares {
+                            if let Some(Stmt::Expr(e, None)) = b.stmts.last() {
+                                self.hit = Some(e);
+                                return;
+                            }
+                        }
+                    }
+                    visit::visit_block(self, b);
+                }
+            }
+            let mut f = F { name, hit: None };
+            match &cur {
+                Cur::Arm(a) => f.visit_expr(&a.body),
+                Cur::ItemFn(x) => f.visit_block(&x.block),
+                Cur::ImplFn(x) => f.visit_block(&x.block),
+                Cur::Closure(c) => f.visit_expr(&c.body),
+                Cur::Expr(e) => f.visit_expr(e),
+                _ => {}
+            }
+            cur = Cur::Expr(f.hit.ok_or_else(|| lost("no block with such a let and a tail expression"))?);
+        } else if let Some(n) = seg.strip_prefix("scrutinee#") {
+            let k: usize = n.trim().parse().map_err(|_| lost("bad ordinal"))?;
+            let coll = collect(&cur);
+            let m = coll.matches.get(k - 1).ok_or_else(|| lost("no such match"))?;
+            cur = Cur::Expr(&m.expr);
+        } else if let Some(n) = seg.strip_prefix("mcall ") {
+            // the argument list of the k-th method call with the given method name
+            let (name, k) = split_ord(n);
+            let coll = collect(&cur);
+            let c = coll
+                .mcalls
+                .iter()
+                .filter(|c| c.method == name)
+                .nth(k - 1)
+                .ok_or_else(|| lost("no such method call"))?;
+            let v: Vec<Expr> = c.args.iter().cloned().collect();
+            let leaked: &'static [Expr] = Box::leak(v.into_boxed_slice());
+            cur = Cur::Exprs(leaked);
         } else if let Some(n) = seg.strip_prefix("call ") {
             // the argument list of the k-th call whose callee path ends with the given text
             let (pfx, k) = split_ord(n);
@@ -450,13 +610,14 @@ pub fn extract_item(sf: &SourceFile, it: &Value, cfg: &Config) -> std::result::R
     // extra declared identifiers (for wrap mode): name -> {prim, is_ref}
     if let Some(decl) = it["declare"].as_object() {
         for (k, v) in decl {
-            rw.declare(
-                k,
-                crate::rewrite::Kind {
-                    prim: v["prim"].as_bool().unwrap_or(true),
-                    is_ref: v["ref"].as_bool().unwrap_or(false),
-                },
-            );
+            let kind = crate::rewrite::Kind {
+                prim: v["prim"].as_bool().unwrap_or(true),
+                is_ref: v["ref"].as_bool().unwrap_or(false),
+            };
+            rw.declare(k, kind);
+            if v["force"].as_bool().unwrap_or(false) {
+                rw.forced.insert(k.clone(), kind);
+            }
         }
     }
 
@@ -623,6 +784,15 @@ pub fn extract_item(sf: &SourceFile, it: &Value, cfg: &Config) -> std::result::R
             wrap_needed = true;
             rw.visit_expr(e);
         }
+        Cur::Stmts(ss) => {
+            let first = ss.first().ok_or(("lost-anchor", "empty statement range".to_string()))?;
+            let last = ss.last().unwrap();
+            range = (sf.range(first.span()).0, sf.range(last.span()).1);
+            wrap_needed = true;
+            for st in ss.iter() {
+                rw.visit_stmt(st);
+            }
+        }
         _ => return Err(("unsupported", format!("`{}` does not select an extractable node", path))),
     }
 
@@ -766,10 +936,11 @@ pub fn extract_item(sf: &SourceFile, it: &Value, cfg: &Config) -> std::result::R
                 }
             }
         }
+        let bp = it["wrap_body_prefix"].as_str().map(|s| format!("{}\n", s)).unwrap_or_default();
         let head = if want_canary {
-            format!("{}\n{{ assert(false); /* vx canary */\n", w.trim())
+            format!("{}\n{{ assert(false); /* vx canary */\n{}", w.trim(), bp)
         } else {
-            format!("{}\n{{\n", w.trim())
+            format!("{}\n{{\n{}", w.trim(), bp)
         };
         if fns_out.is_empty() {
             if let Some(n) = it["wrap_name"].as_str() {
@@ -780,7 +951,8 @@ pub fn extract_item(sf: &SourceFile, it: &Value, cfg: &Config) -> std::result::R
         let pre = it["wrap_prefix"].as_str().map(|s| format!("{}\n", s)).unwrap_or_default();
         let suf = it["wrap_suffix"].as_str().map(|s| format!("{}\n", s)).unwrap_or_default();
         pre_lines += pre.matches('\n').count();
-        text = format!("{}{}{}\n}}\n{}", pre, head, text, suf);
+        let tail = it["wrap_tail"].as_str().map(|s| format!("\n{}", s)).unwrap_or_default();
+        text = format!("{}{}{}{}\n}}\n{}", pre, head, text, tail, suf);
     }
     if let Some(pp) = it["prepend"].as_str() {
         // e.g. re-attach the subset of a dropped #[derive(..)] that Verus understands
